@@ -56,13 +56,16 @@ def generic(rnd, i):
     for o in outs:
         args = rnd.choice([[o], [o], ['y', 'w'], ['w', 'y'], [BACK[1 - BACK.index(o)]]])
         d['defs'].append({'out': o, 'fn': f'I{o}{i}', 'args': args, 'param': rnd.random() < 0.5})
-    if rnd.random() < 0.2:
+    if rnd.random() < 0.3:
         d['inh'] = 'all'
     else:
         pool = ['y', 'w'] + ([] if d['fwd'] in ('def', 'def_p') else ['x'])
         d['inh'] = sorted(n for n in pool if rnd.random() < 0.55)
         if d['fwd'] == 'inherit' and 'x' not in d['inh'] and rnd.random() < 0.85:
             d['inh'] = sorted(d['inh'] + ['x'])
+    # a FORWARD field named like a backward one, without an inverse: going back the name is still inherited, not overridden
+    free = [n for n in BACK if n not in outs and (d['inh'] == 'all' or n not in d['inh'])]
+    d['fwd_extra'] = [n for n in free if rnd.random() < 0.4]
     return d
 
 
@@ -77,6 +80,8 @@ def make(d):
         kw['x'] = Function(named(f'F{i}'), 'x', '_p')
     elif d['fwd'] == 'def':
         kw['x'] = Function(named(f'F{i}'), 'x')
+    for n in d.get('fwd_extra', []):
+        kw[n] = Function(named(f'G{n}{i}'), 'x')
     for x in d['defs']:
         kw[x['out']] = inverse(Function(named(x['fn']), *x['args'], *([Parameter('_p')] if x['param'] else [])))
     return Transform(**kw, __inherit__=True if d['inh'] == 'all' else list(d['inh']))
@@ -130,6 +135,7 @@ def main():
         rec['single'] = [single_out, single_final]
 
         def f(x, fs=fs, single_out=single_out):
+            sympool.CALLS.append(('f', (x,), ()))          # the decorated function itself: once per call
             return fs[0](x) if single_out else tuple(g(x) for g in fs)
         f.__name__ = 'f'
 
